@@ -47,6 +47,7 @@ def table_case(draw, keyed):
             st.tuples(st.just("get_pos"), idx),
             st.tuples(st.just("get_attr"), idx),
             st.tuples(st.just("contains"), key),
+            st.tuples(st.just("bad_set"), key, st.sampled_from([None, 5, 2.5])),     # a value that is not a sequence: refused
         )
         init = draw(st.lists(st.tuples(key, vals), max_size=3))
     else:
@@ -251,6 +252,17 @@ def check_table(case, v):
                     return v.fail("table-" + name, f"step {step}: {e}")
                 if mutated and name == "get_pos":
                     nt = True
+            elif name == "bad_set":
+                try:
+                    if step % 2:
+                        t[op[1]] = op[2]
+                    else:
+                        t.append(op[1], op[2])
+                except Exception:
+                    v.label("refused_assignment")      # the table must be what it was (checked by the invariant below)
+                    mutated = True
+                else:
+                    return v.discard("non-sequence value accepted (not specified)")
             elif name == "contains":
                 if (op[1] in t) != (op[1] in model):
                     return v.fail("table-contains", f"step {step}: {op[1]!r} in t = {op[1] in t}")
